@@ -99,8 +99,9 @@ class Engine(EngineBase):
         jobs = []
         for i, sp in enumerate(sps):
             files = {}
-            for name in ("f1", "sub/g", "sub/deep/h"):
-                if rng.random() < 0.5:
+            for name in ("f1", "sub/g", "sub/deep/h", ".hidden", "sub/.lock", ".cache/step0"):
+                if rng.random() < (0.5 if not name.rsplit("/", 1)[-1].startswith(".") and "/." not in "/" + name
+                                   else 0.15):
                     files[name] = f"DATA:{i}:{name}"
             # a job may itself hold state point files deeper down (a nested project, an earlier export):
             # they are data of that job, not jobs of the importing project
